@@ -21,6 +21,7 @@ func init() {
 			"(D2) an unchanged checksum never sets ok; (D3) list metadata (rule count, checksum, name) is written only after CloseReplace returned nil, when (re)loading the file, and when copying back a list that really was updated with matching ID and URL; (D4) a response is handed to the parser only for status 200 with a nil transport error. " +
 			"(D5) the parser: the HTML test is applied to the trimmed line for as long as nothing has been written (no other condition stands before it) and its positive outcome returns the HTML error; what is written is exactly the trimmed line plus a newline, only for lines classified as rules, the classification sees only the trimmed line, and the rule count and checksum are advanced exactly once, over that same trimmed line, on the path that writes — so re-parsing the stored form reproduces count and checksum; the parse loop stops at the first line error and adds the bytes written. " +
 			"(D6) the two line classifiers (before / after the title was seen), evaluated over the finite domain {empty, first byte '#', first byte '!', binary-looking byte present, title prefix}, return the same verdict for every line. " +
+			"(D1, path form) at every return of updateIntl where ok can be true, ok is `err == nil` for the error returned or no path leads there from an assignment of a possibly non-nil error without crossing an edge on which that error was found nil; nil is stored to err only where it was already found nil; (D4, cont.) the reader handed to the parser never ends early without an error (no io.LimitReader / LimitedReader / SectionReader between the body and the parser). " +
 			"Not decided: what counts as an HTML or binary line (isHTMLLine/parseLine internals), fault placement inside a body.",
 		RuleText:    "Path guards and reaching-store resolution on SSA; writers of the metadata fields are enumerated over the whole module.",
 		Assumptions: []string{"a failure of CloseReplace itself (rename/fsync error) is outside the enumerated faults"},
@@ -160,74 +161,125 @@ func c15UpdateIntl(c *Ctx) {
 		"the deferred finaliser receives this function's own (err, ok) results",
 		"the deferred call of finalizeUpdate is no longer given the function's own err and ok results; the commit decision is detached from the outcome")
 
-	// for every return (block with RunDefers): ok ⇒ err == nil for the same error
+	// The error discipline of the function, in path form.  An "error assignment" is a store to err of a value that
+	// can be non-nil; the "nil edges" are the branch edges on which the current err was found to be nil.
+	//  - ok-implies-no-error: at every return where ok can be true, ok is either the value `err == nil` for the
+	//    error being returned, or no path leads from an error assignment to that return without crossing a nil
+	//    edge (or another error assignment, which then carries the obligation itself);
+	//  - error-discarded: no store of nil to err is reachable from an error assignment without crossing a nil edge.
+	mayBeNonNil := func(v ssa.Value) bool {
+		for _, leaf := range core.FlattenPhi(v) {
+			if !core.IsNilConst(leaf) {
+				return true
+			}
+		}
+		return false
+	}
+	var errStores, nilStores []*ssa.Store
+	errValues := map[ssa.Value]bool{}
+	for _, b := range fn.Blocks {
+		for _, in := range b.Instrs {
+			if st, ok := in.(*ssa.Store); ok && st.Addr == ssa.Value(errCell) {
+				if mayBeNonNil(st.Val) {
+					errStores = append(errStores, st)
+					errValues[st.Val] = true
+				} else {
+					nilStores = append(nilStores, st)
+				}
+			}
+		}
+	}
+	isErrValue := func(v ssa.Value) bool {
+		if u, ok := v.(*ssa.UnOp); ok && u.Op == token.MUL && u.X == ssa.Value(errCell) {
+			return true
+		}
+		return errValues[v]
+	}
+	nilEdges, _ := core.CondEdges(fn, func(at core.Atom) (bool, bool) {
+		if (at.Op == token.EQL || at.Op == token.NEQ) && core.IsNilConst(at.Other) && isErrValue(at.Base) {
+			return true, at.Op == token.EQL
+		}
+		return false, false
+	})
+	isErrStore := func(in ssa.Instruction) bool {
+		st, ok := in.(*ssa.Store)
+		return ok && st.Addr == ssa.Value(errCell) && mayBeNonNil(st.Val)
+	}
+	after := func(in ssa.Instruction) core.Point {
+		pt := core.PointOf(in)
+		pt.Idx++
+		return pt
+	}
+	// untested: is target reachable from some error assignment with the error neither tested nor replaced?
+	untested := func(target ssa.Instruction) (bool, *ssa.Store, []*ssa.BasicBlock) {
+		for _, st := range errStores {
+			if found, tr, _ := core.Reach(core.Query{From: []core.Point{after(st)}, Target: func(x ssa.Instruction) bool { return x == target }, Avoid: isErrStore, AvoidEdges: nilEdges}); found {
+				return true, st, tr
+			}
+		}
+		return false, nil, nil
+	}
 	nRet := 0
 	for _, b := range fn.Blocks {
-		for i, in := range b.Instrs {
+		for _, in := range b.Instrs {
 			if _, ok := in.(*ssa.RunDefers); !ok {
 				continue
 			}
 			nRet++
 			key := fmt.Sprintf("ok-implies-no-error:return#%d", nRet)
 			pos := p.InstrPos(b.Instrs[len(b.Instrs)-1])
-			okVals, okZero, _ := core.ReachingStores(okCell, in)
+			okVals, _, _ := core.ReachingStores(okCell, in)
 			errVals, _, _ := core.ReachingStores(errCell, in)
-			_ = i
 			errSet := map[ssa.Value]bool{}
 			for _, ev := range errVals {
 				for _, l := range leafErrs(ev) {
 					errSet[l] = true
 				}
 			}
-			good := !okZero || true
+			good := true
 			why := ""
+			needPath := false
 			for _, ov := range okVals {
 				for _, leaf := range core.FlattenPhi(ov) {
-					if bv, isC := core.ConstBool(leaf); isC {
-						if bv {
-							good = false
-							why = "ok is the constant true"
+					if bv, isC := core.ConstBool(leaf); isC && !bv {
+						continue
+					}
+					if bo, isB := leaf.(*ssa.BinOp); isB && bo.Op == token.EQL && core.IsNilConst(bo.Y) && isErrValue(bo.X) {
+						// ok is `err == nil`: the tested error must be the returned error
+						for _, l := range leafErrs(bo.X) {
+							if !errSet[l] {
+								good = false
+								why = "ok tests a different error than the one returned"
+							}
 						}
 						continue
 					}
-					bo, isB := leaf.(*ssa.BinOp)
-					if !isB || bo.Op != token.EQL || !core.IsNilConst(bo.Y) {
-						good = false
-						why = fmt.Sprintf("ok depends on %s which is not an `err == nil` test", leaf.Name())
-						continue
-					}
-					// the tested error must be the returned error
-					for _, l := range leafErrs(bo.X) {
-						if !errSet[l] {
-							good = false
-							why = "ok tests a different error than the one returned"
-						}
-					}
+					needPath = true
 				}
 			}
-			r.Check(good, "C15-D1", key, pos, "ok is false or requires err == nil for the error being returned", "updateIntl can report ok (commit the file) together with an error: "+why)
+			if good && needPath {
+				if bad, st, tr := untested(in); bad {
+					good = false
+					why = fmt.Sprintf("ok can be true on a path from the error assignment at %s on which that error is not tested (%s)", p.InstrPos(st), p.TraceString(tr))
+				}
+			}
+			r.Check(good, "C15-D1", key, pos, "ok is false, or is `err == nil` for the error being returned, or is reached only after the error was found nil", "updateIntl can report ok (commit the file) together with an error: "+why)
 		}
 	}
 	r.Floor("C15-D1", "updateIntl-returns", nRet, 3)
 
 	// no error is overwritten with nil
-	nStores := 0
-	for _, b := range fn.Blocks {
-		for _, in := range b.Instrs {
-			st, ok := in.(*ssa.Store)
-			if !ok || st.Addr != ssa.Value(errCell) {
-				continue
-			}
-			nStores++
-			for _, leaf := range core.FlattenPhi(st.Val) {
-				if core.IsNilConst(leaf) {
-					r.Fail("C15-D1", fmt.Sprintf("error-discarded#%d", nStores), p.InstrPos(in),
-						"a transfer/parse error is overwritten with nil before the commit decision: a body cut short (or another failure) would be committed as a successful refresh")
-				}
-			}
+	for i, st := range nilStores {
+		bad, src, tr := untested(st)
+		pos := "-"
+		if src != nil {
+			pos = p.InstrPos(src)
 		}
+		r.Check(!bad, "C15-D1", fmt.Sprintf("error-discarded#%d", i+1), p.InstrPos(st),
+			"err is set to nil only where the error was already found nil",
+			"a transfer/parse error (assigned at "+pos+") is overwritten with nil before the commit decision: a body cut short (or another failure) would be committed as a successful refresh", p.TraceString(tr))
 	}
-	r.Check(nStores >= 3, "C15-D1", "error-flows-to-result", p.FnPos(fn), fmt.Sprintf("%d assignments to err, none discards an error", nStores), "assignments to err not found")
+	r.Check(len(errStores) >= 3, "C15-D1", "error-flows-to-result", p.FnPos(fn), fmt.Sprintf("%d assignments to err, none discards an error", len(errStores)), "assignments to err not found")
 
 	// parser writes into the pending file only; D2 checksum
 	parse := core.CallsTo(fn, "(*filtering/rulelist.Parser).Parse")
@@ -305,6 +357,10 @@ func c15UpdateIntl(c *Ctx) {
 					continue
 				}
 				nLeaves++
+				if isChecksumNeq(leaf) {
+					hasNeq = true
+					continue // ok is the comparison itself
+				}
 				li, isI := leaf.(ssa.Instruction)
 				if !isI {
 					okLeavesGuarded = false
@@ -378,7 +434,13 @@ func leafErrs(v ssa.Value) []ssa.Value {
 	return out
 }
 
-func c15Metadata(c *Ctx) {
+// c15Metadata: D3.
+func c15Metadata(c *Ctx) { refreshMetadata(c, "C15-D3") }
+
+// refreshMetadata: the refresh copies the new metadata of a list back into the live configuration by looking the
+// list up again under the lock, never through a position remembered from before the download (shared by C15-D3
+// and, because the stale position is an index out of range once a list was removed meanwhile, by C05).
+func refreshMetadata(c *Ctx, rule string) {
 	p, r := c.P, c.R
 	meta := map[string]bool{"RulesCount": true, "checksum": true}
 	writers := map[string][]ssa.Instruction{}
@@ -488,7 +550,7 @@ func c15Metadata(c *Ctx) {
 				}
 				return false, false
 			}, isSink)
-			r.Check(n > 0 && len(off) == 0, "C15-D3", "metadata-after-commit:"+fk, p.FnPos(fn),
+			r.Check(n > 0 && len(off) == 0, rule, "metadata-after-commit:"+fk, p.FnPos(fn),
 				"rule count and checksum are updated only after CloseReplace returned nil", "list metadata is updated although the file was not (successfully) replaced", traceOf(p, off)...)
 		case "(*filtering.DNSFilter).refreshFiltersArray":
 			// guarded by the per-list updated flag (element of the flags slice) being true
@@ -508,7 +570,7 @@ func c15Metadata(c *Ctx) {
 				}
 				return false, false
 			}, isSink)
-			r.Check(n > 0 && len(off) == 0, "C15-D3", "metadata-copied-only-if-updated:"+fk, p.FnPos(fn),
+			r.Check(n > 0 && len(off) == 0, rule, "metadata-copied-only-if-updated:"+fk, p.FnPos(fn),
 				"metadata is copied back into the configuration only for lists whose refresh reported updated == true", "metadata of a list that was not updated is overwritten", traceOf(p, off)...)
 			// and only for the matching ID and URL
 			off2, n2 := deep(fn, func(at core.Atom) (bool, bool) {
@@ -566,9 +628,9 @@ func c15Metadata(c *Ctx) {
 					okIdx = false
 				}
 			}
-			r.Check(okIdx, "C15-D3", "metadata-copied-by-search-not-by-stale-index:"+fk, p.FnPos(fn),
+			r.Check(okIdx, rule, "metadata-copied-by-search-not-by-stale-index:"+fk, p.FnPos(fn),
 				"the live list that receives refreshed metadata is found by scanning the live array", "refreshed metadata is written through an index into the live array that does not come from scanning it now: when a list is removed during the download, the results of a refresh that already replaced the file are lost")
-			r.Check(n2 > 0 && len(off2) == 0, "C15-D3", "metadata-copied-to-same-list:"+fk, p.FnPos(fn),
+			r.Check(n2 > 0 && len(off2) == 0, rule, "metadata-copied-to-same-list:"+fk, p.FnPos(fn),
 				"metadata is copied only to the list with the same ID", "metadata can be copied to a different list", traceOf(p, off2)...)
 		case "(*filtering.DNSFilter).load":
 			// values come from parsing the file just opened
@@ -586,9 +648,9 @@ func c15Metadata(c *Ctx) {
 					okAll = false
 				}
 			}
-			r.Check(okAll, "C15-D3", "metadata-from-file:"+fk, p.FnPos(fn), "load takes rule count and checksum from parsing the stored file", "load sets metadata from something other than the parse result of the stored file")
+			r.Check(okAll, rule, "metadata-from-file:"+fk, p.FnPos(fn), "load takes rule count and checksum from parsing the stored file", "load sets metadata from something other than the parse result of the stored file")
 		case "(*filtering.FilterYAML).unload":
-			r.Ok("C15-D3", "metadata-reset:"+fk, p.FnPos(fn), "unload clears the metadata of a disabled list")
+			r.Ok(rule, "metadata-reset:"+fk, p.FnPos(fn), "unload clears the metadata of a disabled list")
 		case "(*filtering.DNSFilter).filterSetProperties$1", "(*filtering.DNSFilter).filterSetProperties$2", "(*filtering.DNSFilter).filterSetProperties$3":
 			// rollback closure: restores the value captured at entry, only when err != nil
 			okRb := true
@@ -605,14 +667,14 @@ func c15Metadata(c *Ctx) {
 				return false, false
 			})
 			off, _ := core.UnguardedSinks(fn, isSink, g)
-			r.Check(okRb && n > 0 && len(off) == 0, "C15-D3", "metadata-rollback:"+fk, p.FnPos(fn),
+			r.Check(okRb && n > 0 && len(off) == 0, rule, "metadata-rollback:"+fk, p.FnPos(fn),
 				"on error the previous rule count captured at entry is restored", "the rollback closure writes metadata that is not the previously captured value, or not only on error")
 		default:
-			r.Fail("C15-D3", "metadata-writer:"+fk, p.InstrPos(ins[0]),
+			r.Fail(rule, "metadata-writer:"+fk, p.InstrPos(ins[0]),
 				"an unclassified function writes a list's rule count / checksum: metadata may diverge from the file on disk after a failed refresh")
 		}
 	}
-	r.Floor("C15-D3", "metadata-writers", len(names), 3)
+	r.Floor(rule, "metadata-writers", len(names), 3)
 }
 
 func c15Reader(c *Ctx) {
@@ -656,6 +718,41 @@ func c15Reader(c *Ctx) {
 	off2, _ := core.UnguardedSinks(fn, nonNilReader, g2)
 	r.Check(n2 > 0 && len(off2) == 0, "C15-D4", "body-only-without-transport-error", p.FnPos(fn),
 		"a response body is returned only when the HTTP request returned no error", "a response can be used although the request failed", traceOf(p, off2)...)
+	// The parser takes a clean end of input for the end of the list.  A reader that cuts its source short
+	// without an error (io.LimitReader, io.LimitedReader, io.SectionReader) turns a half list into a whole one.
+	silent := map[string]bool{"io.LimitReader": true, "io.NewSectionReader": true}
+	for _, fk := range []string{"(*filtering.DNSFilter).readerFromURL", "(*filtering.DNSFilter).reader"} {
+		f := p.Fn(fk)
+		if f == nil {
+			r.Undecided("C15-D4", "no-silent-truncation:"+fk, "-", "anchor not found")
+			continue
+		}
+		var bad []string
+		nRet := 0
+		for _, b := range f.Blocks {
+			if len(b.Instrs) == 0 || b == f.Recover {
+				continue
+			}
+			ret, ok := core.AsReturn(b.Instrs[len(b.Instrs)-1])
+			if !ok || len(ret.Results) != 2 {
+				continue
+			}
+			nRet++
+			for _, o := range core.Origins(core.Res(ret, 0), core.ProvOpts{Prog: p, IntoModuleCalls: true, InterprocDepth: 2}) {
+				if o.Kind == "call" && silent[o.Key] {
+					bad = append(bad, o.Key+" at "+p.InstrPos(ret))
+				}
+				if o.Val != nil {
+					if t := core.TypeKey(o.Val.Type()); strings.Contains(t, "io.LimitedReader") || strings.Contains(t, "io.SectionReader") {
+						bad = append(bad, t+" at "+p.InstrPos(ret))
+					}
+				}
+			}
+		}
+		r.Check(nRet > 0 && len(bad) == 0, "C15-D4", "no-silent-truncation:"+fk, p.FnPos(f),
+			"the reader handed to the parser never ends early without an error",
+			"the list is read through a reader that stops early with a clean end of input: a list cut at that point is parsed, counted and committed as if it were complete", bad...)
+	}
 }
 
 // c15Parser: D5.
@@ -832,7 +929,7 @@ func c15Parser(c *Ctx) {
 			if !ok || e.Index != 1 {
 				return false, false
 			}
-			if cl, ok := e.Tuple.(*ssa.Call); !ok || !strings.Contains(core.CalleeKey(cl.Common()), "parseLine") {
+			if !core.IsCallResult(e, 1, "filtering/rulelist.parseLine", "(*filtering/rulelist.Parser).parseLineTitle") {
 				return false, false
 			}
 		}
@@ -1026,4 +1123,20 @@ func parserReportsReadError(c *Ctx, rule string) {
 		ok, why = false, "no return follows the scanner-error query"
 	}
 	r.Check(ok, rule, "scanner-error-reported", p.InstrPos(serr), "after the scan the parser returns exactly the scanner's error", why+": a list whose transfer broke off is parsed 'successfully' and replaces the stored one")
+}
+
+// isChecksumNeq matches `res.Checksum != flt.checksum` (either order).
+func isChecksumNeq(v ssa.Value) bool {
+	bo, ok := v.(*ssa.BinOp)
+	if !ok || bo.Op != token.NEQ {
+		return false
+	}
+	f1, _, ok1 := core.LoadedField(bo.X)
+	f2, _, ok2 := core.LoadedField(bo.Y)
+	if !ok1 || !ok2 {
+		return false
+	}
+	names := []string{f1.String(), f2.String()}
+	sort.Strings(names)
+	return names[0] == "filtering.FilterYAML.checksum" && names[1] == "filtering/rulelist.ParseResult.Checksum"
 }
